@@ -382,7 +382,7 @@ void gen(uint64_t seed, int tier, sim::Plan &p) {
     // the tracer only time-stamps allocations and ignores a failing clock: environments without CLOCK_BOOTTIME (every read fails)
     // or with occasional failures are legal for it
     // systems where backtrace() is unsupported (the tracer falls back to byte counting) or yields very shallow stacks
-    if (r.chance(0.2)) p.cfg["backtrace_mode"] = r.range(1, 4); // 1 unsupported, 2 one frame, 3 two frames, 4 as deep as the tracer asks for
+    if (r.chance(0.25)) p.cfg["backtrace_mode"] = r.range(1, 5); // 1 unsupported, 2 one frame, 3 two frames, 4 as deep as the tracer asks for, 5 every call from a call site of its own
     if (r.chance(0.15)) p.cfg["p_clockfail_boot"] = r.pick(std::vector<int64_t>{1000000, 1000000, 50000, 300000});
     p.cfg["alloc_move_permille"] = r.pick(std::vector<int64_t>{0, 500, 1000});
     if (r.chance(0.25)) p.cfg["keep_live"] = r.range(1, 4);
@@ -416,6 +416,7 @@ void gen(uint64_t seed, int tier, sim::Plan &p) {
         // scale run: well over a thousand live allocations (the address table has to grow), then an exact check
         int t = (int)r.range(1, nw);
         sim::Op b; b.thr = t; b.kind = OP_BULK; b.a = r.range(1050, 1400); b.b = r.range(0, 100);
+        if (p.get("backtrace_mode", 0) == 5 || r.chance(0.2)) { p.cfg["backtrace_mode"] = 5; b.a = r.range(4100, 5200); } // thousands of distinct call stacks
         p.ops.insert(p.ops.begin() + (long)r.below(p.ops.size() + 1), b);
         sim::Op cp; cp.thr = t; cp.kind = OP_CHECKPOINT; cp.a = 0;
         p.ops.push_back(cp);
